@@ -1,6 +1,7 @@
 """C12 - arrays, maps and chunked strings behave as bounded / unbounded sequences (DESIGN §4 C12)."""
 from build import AnalysisBroken
 import paths as P
+import rules
 from paths import ptr_key, is_const
 import ownership as O
 import decoder_rules as DR
@@ -353,7 +354,8 @@ def run(ctx, chk):
         where = "%s:%d" % (f.file, f.line)
         ii = f.param_index("index")
         I = ("arg", ii)
-        for k, pa in enumerate(cache.get(name)):
+        # (the size may be read from the field or through its accessor: accessors are seen through)
+        for k, pa in enumerate(cache.get(name, inline=rules.pure_getters(prog, eff) - {name})):
             st = pa.st
             acc = [e for e in pa.events if e.kind in ("load", "store") and index_of(e.args[0])[1] == I]
             # what the path knows about index vs size: the relations still possible, however the tests are ordered / spelled
